@@ -162,10 +162,36 @@ def run_jobs(modname, jobs, nproc=None, fresh=False):
 def load_known(pid):
     path = os.path.join(VERIF, 'known_findings.json')
     if not os.path.exists(path):
-        return {}
+        return _Known([])
     with open(path) as f:
         doc = json.load(f)
-    return {e['key']: e for e in doc.get('findings', []) if e['property'] == pid and e.get('status') == 'open'}
+    return _Known([e for e in doc.get('findings', []) if e['property'] == pid and e.get('status') == 'open'])
+
+
+class _Known:
+    """Open findings of one property: exact keys, or 'key_regex' entries (one defect that shows under a family of keys)."""
+
+    def __init__(self, entries):
+        import re
+        self.exact = {e['key']: e for e in entries if 'key' in e}
+        self.rx = [(re.compile(e['key_regex']), e) for e in entries if 'key_regex' in e]
+
+    def get(self, key):
+        if key in self.exact:
+            return self.exact[key]
+        for rx, e in self.rx:
+            if rx.fullmatch(key):
+                return e
+        return None
+
+    def __contains__(self, key):
+        return self.get(key) is not None
+
+    def __getitem__(self, key):
+        e = self.get(key)
+        if e is None:
+            raise KeyError(key)
+        return e
 
 
 def jsonable(x):
@@ -205,8 +231,15 @@ def finish(pid, tier, seed, level, total, wall, rule, assumptions, extra=None):
             known_hit[v['key']] = v
         else:
             fresh.append(v)
+    printed = set()
     for key in sorted(known_hit):
-        print(f'KNOWN-FINDING: property={pid} {known[key]["what"]} [{key}] (seen {known_hit[key]["count"]}x)')
+        e = known[key]
+        if id(e) in printed:
+            continue
+        printed.add(id(e))
+        same = [k for k in known_hit if known[k] is e]
+        print(f'KNOWN-FINDING: property={pid} {e["what"]} [{key}{" and %d more keys of this class" % (len(same) - 1) if len(same) > 1 else ""}] '
+              f'(seen {sum(known_hit[k]["count"] for k in same)}x)')
     for v in fresh:
         path = write_replay(pid, v)
         print(f'VIOLATION property={pid} replay={path}')
